@@ -256,17 +256,21 @@ class M(Model):
 
 
     # ------------------------------------------------------------------------------------ plan bias
-    def solve_action(self, s, r=0, eager=False):
+    def solve_action(self, s, r=0, eager=False, pick=None):
         """Joint action of a greedy forager (used by the 'solve' plan mode / synthetic C09 episodes): the agents
-        walk to distinct free cells next to one uneaten food (the r-th) and load it together once the levels
-        of the agents standing next to it suffice (eager=True: load as soon as adjacent, which also produces
-        under-levelled attempts)."""
+        walk to distinct free cells next to one uneaten food and load it together once the levels of the agents
+        standing next to it suffice (eager=True: load as soon as adjacent, which also produces under-levelled
+        attempts).  The food is the one closest to the agents (stable from step to step; the plan's per-step
+        `r` is deliberately not used for it) unless `pick` selects the pick-th uneaten food."""
         apos, alev, fpos, flev, eaten = self._tab(s)
         act = np.zeros(self.A, np.int64)
         todo = np.flatnonzero(~eaten)
         if todo.size == 0:
             return act
-        f = int(todo[int(r) % todo.size])
+        if pick is not None:
+            f = int(todo[int(pick) % todo.size])
+        else:
+            f = int(min(todo, key=lambda i: (int(np.abs(apos - fpos[i]).sum()), int(i))))
         food = tuple(fpos[f].tolist())
         cells = [tuple(p) for p in apos.tolist()]
         live = {tuple(fpos[i].tolist()) for i in todo}
@@ -467,7 +471,7 @@ def _syn_policy(model, mode, noise):
         if mode == "crowd" and t < 3 * model.G:
             act = model.crowd_action(hs, (noise[0], noise[1]))
         else:
-            act = model.solve_action(hs, r=noise[0], eager=(mode == "eager"))
+            act = model.solve_action(hs, eager=(mode == "eager"), pick=noise[0])
         if z % 7 == 0:  # deviation: one agent plays an arbitrary action
             act[z % model.A] = (z // 7) % 6
         return act
